@@ -95,6 +95,12 @@ def parseXf : List String → Option (Xform Float × List String)
 def splitAt (sep : String) (ws : List String) : List String × List String :=
   (ws.takeWhile (· ≠ sep), (ws.dropWhile (· ≠ sep)).drop 1)
 
+partial def splitGroups (ws : List String) : List (List String) :=
+  let (g, rest) := (ws.takeWhile (· ≠ "/"), ws.dropWhile (· ≠ "/"))
+  match rest with
+  | [] => [g]
+  | _ :: rest' => g :: splitGroups rest'
+
 def showNodes (st : BState Float) : String :=
   let nodes := st.nodes.map fun (s, id) =>
     s!" ; {senseCh s} {id} {showSurface (st.store.surfaces.getD id (.sphereCentered 0.0))}"
@@ -187,28 +193,44 @@ def driverStep (st : Unit) (line : String) : Unit × String :=
            | _, _ => "bad-op")
         | _, _ => "bad-op")
      | _, _ => "bad-op")
-  -- `build2 <tol> <xf1> <region1> / <xf2> <region2>` : two objects of ONE unit
+  -- `build2 <tol> <xf1> <region1> / <xf2> <region2> [/ …]` : two or more objects of ONE unit
   | "build2" :: t :: rest =>
     (match pf16 t with
      | some tolv =>
        if !(tolv > 0.0 && tolv < 1.0) || !rest.contains "/" then "bad-op" else
        let tol := Tol.fromRelative tolv
-       let (w1, w2) := splitAt "/" rest
-       (match parseXf w1, parseXf w2 with
-        | some (x1, r1), some (x2, r2) =>
-          (match parseRegionV r1, parseRegionV r2 with
-           | some (some a), some (some b) =>
-             let s1 := a.build tol x1
-             if s1.diverged then "diverged" else
-             let s2 := b.buildIn s1.store tol x2
-             if s2.diverged then "diverged" else
-             let surfs := s2.store.surfaces.map fun s => s!" ; {showSurface s}"
-             -- the first object's literals are printed against the unit as it was after it
-             s!"ok {showNodes s1} | {showNodes s2} | surfs {s2.store.surfaces.length}{String.join surfs}"
-           | some none, some _ => "err validate"
-           | some _, some none => "err validate"
-           | _, _ => "bad-op")
-        | _, _ => "bad-op")
+       let groups := splitGroups rest
+       if groups.length < 2 || groups.length > 24 then "bad-op" else
+       let parsed := groups.map fun g =>
+         match parseXf g with
+         | some (x, rw) => (parseRegionV rw).map fun r => (x, r)
+         | none => none
+       if parsed.any (·.isNone) then "bad-op"
+       else if parsed.any (fun q => match q with | some (_, none) => true | _ => false) then "err validate"
+       else
+         let step (acc : SurfStore Float × String × Bool) (q : Option (Xform Float × Option (Region Float))) :
+             SurfStore Float × String × Bool :=
+           match q with
+           | some (x, some r) =>
+             let st := r.buildIn acc.1 tol x
+             (st.store, acc.2.1 ++ s!" {showNodes st} |", acc.2.2 || st.diverged)
+           | _ => acc
+         let (store, txt, dv) := parsed.foldl step (⟨[], []⟩, "ok", false)
+         if dv then "diverged" else
+         let surfs := store.surfaces.map fun s => s!" ; {showSurface s}"
+         s!"{txt} surfs {store.surfaces.length}{String.join surfs}"
+     | none => "bad-op")
+  -- `emit <tol> <xf> <region>` (model only): the emitted surfaces after the transform, BEFORE
+  -- simplification and de-duplication
+  | "emit" :: rest =>
+    (match parseHead rest with
+     | some (tol, tra, rw) =>
+       (match parseRegionV rw with
+        | some (some r) =>
+          let l := (r.emit tol).map fun q => s!" ; {senseCh q.1} {showSurface (tra.applySurf q.2)}"
+          s!"ok {l.length}{String.join l}"
+        | some none => "err validate"
+        | none => "bad-op")
      | none => "bad-op")
   | "build" :: rest =>
     (match parseHead rest with
